@@ -239,6 +239,11 @@ def balance_rule(repo, run, rid, want):
                 run.report(rid, DS, origin, "if this call raises, integrate() exits with %d interpolant piece(s) added but the counter advanced by %d: "
                                             "the dense output no longer covers exactly the accepted steps" % (added, adv),
                            text="exceptional-exit balance at `%s`: delta=%+d" % (src(origin)[:80], delta))
+    # 'a terminal event stops the integration': the stop flag the event handler returns is what ends the loop; nothing between the handler's result and the roll-back
+    # may clear it (a guard that compares the terminal event with the record just appended for it clears it for every later call on the same system)
+    from .c03 import exits
+    exits(repo, run, m, rule_id="C09.8")
+
 
 
 def removal_index(repo, run, rid):
